@@ -20,7 +20,9 @@ def parseOut : String → String → Option (Option (Outcome × Nat))
 def driverLine (inp obs : List String) : Bool × Bool × String × String :=
   match inp with
   | d :: t :: ok :: ";" :: ps =>
-    let d := natTok d
+    if obs.head? == some "panic" then (false, false, "C19/panic", "") else
+    -- (`max` = `Duration::MAX`: later than every instant of the run)
+    let d := if d == "max" then 10 ^ 30 else natTok d
     let i : Inner := { at_ := if t == "-" then none else some (natTok t), ok := ok == "1" }
     let ps := ps.map natTok
     let m := runPolls d i ps 0
